@@ -4,6 +4,7 @@ import (
 	"verif/engines/chunk"
 	"verif/engines/fault"
 	"verif/engines/hostile"
+	"verif/engines/kcache"
 	"verif/engines/pipe"
 	"verif/engines/pull"
 	"verif/engines/reuse"
@@ -84,5 +85,14 @@ func init() {
 			"real": {"json/ubjson/cborl Visitor", "json/ubjson/cborl Parser", "json/ubjson/cborl Decoder", "gotype.Iterator", "gotype.Unfolder"},
 			"stub": {"io.Writer (simkit.Writer)", "io.Reader (simkit.Reader)", "downstream visitor (simkit.Tap)"}},
 		Assumptions: []string{"oracle: the same probe on a newly created instance; stack depths through the verif-tag accessors", "a history document the instance refuses ends the scenario (it was not completely processed)"},
+	}
+	registry["C20"] = &propCfg{
+		Engine: kcache.Engine{}, EngineName: "kcache", Level: "exploration",
+		QuickRuns: 30000, ThoroughRuns: 2000000, QuickCapS: 60, ThoroughCapS: 900,
+		Rule: "one run = one Unfolder with EnableKeyCache(n), n drawn from {0,1,2,3,5,64,1000}, fed a history of 1-8 (thorough: 1-16) documents whose object keys come from an alphabet of 1-8 keys (hits, misses, evictions, re-insertions), written by the independent writers in a drawn format and parsed by the real parser under per-document chunk schedules with chunk buffers scribbled after every write, into a drawn map-bearing target type; all targets are inspected only after the whole history; evaluations = histories; distinct by (capacity, format, target, documents, schedules); every history is non-trivial (keys delivered by reference through the cache)",
+		Components: map[string][]string{
+			"real": {"gotype.Unfolder incl. symbolCache", "json/ubjson/cborl Parser"},
+			"stub": {"caller-side chunk buffers (simkit.Feed, scribbled)"}},
+		Assumptions: []string{"oracle: the same history on an unfolder without key cache", "eviction order itself is not asserted (not part of the property)"},
 	}
 }
